@@ -14,7 +14,7 @@ import (
 func init() {
 	register(&PropRules{
 		ID:      "C14",
-		Explain: "Written records follow the schema and the configured parameters — structural part: (C14.1) the single line written first is Sprintf(\"%s:%d:%d:%s\\n\", hasher.GetFormatID(), time.Now().Unix(), store.Default, hasher.Generate(password)) with hasher = Params[Default], and the reader splits on the same separator into the same positions; each hasher's string is Sprintf(\"%s:%s\", b64(salt), b64(digest)) in that order, matching the decoders; the algorithm identifiers are the schema's; (C14.2) salts: a fresh make([]byte,16) per argon2id Generate filled by crypto/rand.Read (error and length checked), used as the KDF salt and encoded as the first field; scryptauth.Gen likewise with 32 bytes; sizes equal the schema table (128/256 bit); (C14.3) KDF operands: IDKey(pw, salt, Time, Memory, Threads, Length) — each a direct load of the same-named parameter field in Generate and Check alike; YAML tags time/memory/threads/length, hmackey/cost/r/p, id/scryptauth/argon2id, basedir/default/params; scryptauth.New(Cost, StdEncoding(hmackey)) with the 32-byte length enforced, r/p applied only when > 0; in the dependency Hash = HMAC-SHA256(key=HmacKey, msg=scrypt.Key(pw, salt, 1<<PwCost, R, P, 32)); (C14.4) URL-safe base64 at all record sites (= C02.5); (C14.5) secrets stay out of the directory: everything written to a file depends on the password only through the KDF call and never on the HMAC key. Round 3: nothing in NewScryptAuthHasher writes the decoded HMAC key buffer, which scryptauth.New retains (read from the dependency).",
+		Explain: "Written records follow the schema and the configured parameters — structural part: (C14.1) the single line written first is Sprintf(\"%s:%d:%d:%s\\n\", hasher.GetFormatID(), time.Now().Unix(), store.Default, hasher.Generate(password)) with hasher = Params[Default], and the reader splits on the same separator into the same positions; each hasher's string is Sprintf(\"%s:%s\", b64(salt), b64(digest)) in that order, matching the decoders; the algorithm identifiers are the schema's; (C14.2) salts: a fresh make([]byte,16) per argon2id Generate filled by crypto/rand.Read (error and length checked), used as the KDF salt and encoded as the first field; scryptauth.Gen likewise with 32 bytes; sizes equal the schema table (128/256 bit); (C14.3) KDF operands: IDKey(pw, salt, Time, Memory, Threads, Length) — each a direct load of the same-named parameter field in Generate and Check alike; YAML tags time/memory/threads/length, hmackey/cost/r/p, id/scryptauth/argon2id, basedir/default/params; scryptauth.New(Cost, StdEncoding(hmackey)) with the 32-byte length enforced, r/p applied only when > 0; in the dependency Hash = HMAC-SHA256(key=HmacKey, msg=scrypt.Key(pw, salt, 1<<PwCost, R, P, 32)); (C14.4) URL-safe base64 at all record sites (= C02.5); (C14.5) secrets stay out of the directory: everything written to a file depends on the password only through the KDF call and never on the HMAC key. Round 3: nothing in NewScryptAuthHasher writes the decoded HMAC key buffer, which scryptauth.New retains (read from the dependency). Round 4: the key handed to New may be a private copy of the decoded key (clone expression or make+copy of all 32 bytes) — then the source buffer must be intact until the copy is taken and is scratch afterwards, while the copy itself is never written; a Generate that draws its own fresh 32-byte crypto/rand salt and calls Context.Hash is held to what Gen does; the temporary []byte(password) handed to a KDF is not written before the KDF reads it.",
 		Undec:   []string{"digest value equality with an independent implementation (x/crypto is trusted)", "salt uniqueness as a probabilistic statement", "the current-time field's value"},
 		Run:     runC14,
 		Floors:  map[string]int{"C14.1": 4, "C14.2": 2, "C14.3": 6, "C14.4": 5, "C14.5": 3},
@@ -125,30 +125,12 @@ func c142(c *an.Ctx, p *an.Prog) {
 				return
 			}
 			salt := kdf.Args[1]
-			if salt.Op != "make" || salt.Aux != "slice" || !salt.Args[0].IsConst("16") {
-				bad = append(bad, "salt is not a fresh make([]byte, 16) of this call (schema: 128 bit): "+salt.K)
+			sd, fatal := saltDefects(s, salt, 16, "128 bit", eventOf(s, kdf))
+			bad = append(bad, sd...)
+			if fatal {
 				return
 			}
-			idx, why := randFill(s, salt, len(s.Events))
-			if idx < 0 {
-				bad = append(bad, "salt "+why)
-			} else {
-				rd := s.Events[idx].Res
-				okLen := s.Events[idx].Callee == "io.ReadFull" // err == nil means the buffer was filled completely
-				for _, a := range s.Atoms {
-					if a.Op == "==" && a.B != nil && a.A.K == extractOf(rd, 0).K {
-						if a.B.IsConst("16") {
-							okLen = true
-						}
-						if lc, _ := a.B.CallOf(); lc != nil && lc.Aux == "builtin len" && lc.Args[0].K == salt.K {
-							okLen = true
-						}
-					}
-				}
-				if !okLen {
-					bad = append(bad, "short read of the random source not excluded")
-				}
-			}
+			bad = append(bad, pwOperandDefects(p, s, g, kdf.Args[0], eventOf(s, kdf))...)
 			spArgs, okFmt := fmtArgs(ret.Args[0], "%s:%s")
 			if !okFmt || len(spArgs) != 2 {
 				bad = append(bad, "result is not Sprintf(\"%s:%s\", …)")
@@ -213,13 +195,42 @@ func c142(c *an.Ctx, p *an.Prog) {
 				return
 			}
 			n++
-			var gen *an.Term
+			var gen, hsh *an.Term
 			for _, e := range s.Events {
-				if e.Kind == "call" && strings.HasSuffix(e.Callee, "Context).Gen") {
+				if e.Kind == "call" && strings.HasSuffix(e.Callee, "scryptauth.v2.Context).Gen") {
 					gen = e.Res
 				}
+				if e.Kind == "call" && strings.HasSuffix(e.Callee, "scryptauth.v2.Context).Hash") {
+					hsh = e.Res
+				}
 			}
-			if gen == nil || !callErrNil(s, gen) {
+			// the salt and the digest of this call: Gen's results — or, when Generate does by hand what Gen does (checked
+			// on the dependency above: a fresh 32-byte crypto/rand salt, then Hash), its own salt and Hash's digest
+			var saltT, digestT *an.Term
+			switch {
+			case gen != nil:
+				if !callErrNil(s, gen) {
+					bad = append(bad, "success without Gen err==nil")
+					return
+				}
+				saltT, digestT = extractOf(gen, 1), extractOf(gen, 0)
+				bad = append(bad, pwOperandDefects(p, s, g, gen.Args[1], eventOf(s, gen))...)
+			case hsh != nil && len(hsh.Args) == 3:
+				if !callErrNil(s, hsh) {
+					bad = append(bad, "success without Hash err==nil")
+					return
+				}
+				if termField(hsh.Args[0]) != "saCtx" {
+					bad = append(bad, "the digest is not computed by the hasher's own scrypt context: "+hsh.Args[0].K)
+				}
+				sd, fatal := saltDefects(s, hsh.Args[2], 32, "256 bit", eventOf(s, hsh))
+				bad = append(bad, sd...)
+				if fatal {
+					return
+				}
+				saltT, digestT = hsh.Args[2], extractOf(hsh, 0)
+				bad = append(bad, pwOperandDefects(p, s, g, hsh.Args[1], eventOf(s, hsh))...)
+			default:
 				bad = append(bad, "success without Gen err==nil")
 				return
 			}
@@ -228,16 +239,75 @@ func c142(c *an.Ctx, p *an.Prog) {
 				bad = append(bad, "result is not Sprintf(\"%s:%s\", …)")
 				return
 			}
-			sp := &an.Term{Args: []*an.Term{nil, {Op: "varargs", Args: spArgs}}}
-			for i, want := range []int{1, 0} { // Gen returns (hash, salt): salt is written first
-				e, _ := sp.Args[1].Args[i].CallOf()
-				if e == nil || e.Aux != "(*encoding/base64.Encoding).EncodeToString" || e.Args[1].K != extractOf(gen, want).K {
-					bad = append(bad, fmt.Sprintf("field %d of the hash string is not Gen's result %d (salt first, digest second)", i, want))
+			for i, want := range []*an.Term{saltT, digestT} { // salt is written first
+				e, _ := spArgs[i].CallOf()
+				if e == nil || e.Aux != "(*encoding/base64.Encoding).EncodeToString" || e.Args[1].K != want.K {
+					bad = append(bad, fmt.Sprintf("field %d of the hash string is not the %s of this call (salt first, digest second)", i, []string{"salt", "digest"}[i]))
 				}
 			}
 		})
 		c.Check(len(bad) == 0 && n > 0, "C14.2", fnKey(g)+"|order", p.Pos(g.Pos()), "salt (Gen result 1) written first, digest (result 0) second", strings.Join(uniqS(bad), "; "))
 	}
+}
+
+// eventOf: index of the call event that produced the call term (len(Events) if it is not on the path).
+func eventOf(s *an.PathState, call *an.Term) int {
+	for i, e := range s.Events {
+		if e.Kind == "call" && e.Res != nil && e.Res.K == call.K {
+			return i
+		}
+	}
+	return len(s.Events)
+}
+
+// saltDefects: the salt operand of the KDF call at event index `at` is a fresh make([]byte, size) of this call that
+// crypto/rand filled completely (error checked, short read excluded) and that nothing else wrote before the KDF
+// used it. fatal: the operand is not such a buffer at all.
+func saltDefects(s *an.PathState, salt *an.Term, size int, schema string, at int) (bad []string, fatal bool) {
+	if salt.Op != "make" || salt.Aux != "slice" || !salt.Args[0].IsConst(fmt.Sprint(size)) {
+		return []string{fmt.Sprintf("salt is not a fresh make([]byte, %d) of this call (schema: %s): %s", size, schema, salt.K)}, true
+	}
+	idx, why := randFill(s, salt, at)
+	if idx < 0 {
+		return []string{"salt " + why}, false
+	}
+	rd := s.Events[idx].Res
+	okLen := s.Events[idx].Callee == "io.ReadFull" // err == nil means the buffer was filled completely
+	for _, a := range s.Atoms {
+		if a.Op == "==" && a.B != nil && a.A.K == extractOf(rd, 0).K {
+			if a.B.IsConst(fmt.Sprint(size)) {
+				okLen = true
+			}
+			if lc, _ := a.B.CallOf(); lc != nil && lc.Aux == "builtin len" && lc.Args[0].K == salt.K {
+				okLen = true
+			}
+		}
+	}
+	if !okLen {
+		bad = append(bad, "short read of the random source not excluded")
+	}
+	return bad, false
+}
+
+// pwOperandDefects: the password operand of a KDF call is the function's password parameter itself, up to
+// string→[]byte, and that temporary copy still holds the password when the KDF runs: nothing wrote it before the
+// call at event index `at` (clearing it afterwards is harmless: the KDFs do not retain their input).
+func pwOperandDefects(p *an.Prog, s *an.PathState, fn *ssa.Function, op *an.Term, at int) (bad []string) {
+	if len(fn.Params) < 2 || op == nil {
+		return nil
+	}
+	if op.StripConv().K != s.T(fn.Params[1]).K {
+		return []string{"the KDF's password operand is " + op.K + ", not the password itself"}
+	}
+	for i, e := range s.Events {
+		if i >= at {
+			break
+		}
+		if w := bufWrite(p, e, op); w != "" {
+			bad = append(bad, "the temporary copy of the password is written before the KDF reads it ("+w+"): the digest is not the password's")
+		}
+	}
+	return bad
 }
 
 func c143(c *an.Ctx, p *an.Prog) {
@@ -253,6 +323,7 @@ func c143(c *an.Ctx, p *an.Prog) {
 			an.EnumPaths(fn, nil, ci, func(s *an.PathState) {
 				n++
 				a := s.CallArgs(ci)
+				bad = append(bad, pwOperandDefects(p, s, fn, a[0], len(s.Events))...)
 				for i, f := range []string{"Time", "Memory", "Threads", "Length"} {
 					t := a[2+i]
 					if !(t.Op == "load" && t.Args[0].Op == "fieldaddr" && t.Args[0].Aux == f) {
@@ -392,7 +463,26 @@ func c143(c *an.Ctx, p *an.Prog) {
 			if !(nw.Args[0].Op == "load" && nw.Args[0].Args[0].Aux == "Cost") {
 				bad = append(bad, "scrypt cost is "+nw.Args[0].K+", not the cost field")
 			}
-			if stripClone(nw.Args[1]).K != extractOf(dec, 0).K || !extractNil(s, dec, 1) || !(dec.Args[1].Op == "load" && dec.Args[1].Args[0].Aux == "HmacKeyBase64") {
+			// the buffer handed to New holds the decoded key: it is the decoder's result itself or a private copy of it
+			// (clone expression, or make+copy of the whole key), possibly through several copies. Each buffer of the
+			// chain has the moment its content was fixed (filled) and the moment it was handed on (copied out / New).
+			type keyLink struct {
+				buf         *an.Term
+				filled, out int
+			}
+			newIdx := eventOf(s, nw)
+			decoded := extractOf(dec, 0)
+			chain := []keyLink{{nw.Args[1], -1, newIdx}}
+			for len(chain) < 4 && chain[len(chain)-1].buf.K != decoded.K {
+				last := &chain[len(chain)-1]
+				src, at, ok := copyOrigin(p, s, last.buf, last.out)
+				if !ok {
+					break
+				}
+				last.filled = at
+				chain = append(chain, keyLink{src, -1, at})
+			}
+			if chain[len(chain)-1].buf.K != decoded.K || !extractNil(s, dec, 1) || !(dec.Args[1].Op == "load" && dec.Args[1].Args[0].Aux == "HmacKeyBase64") {
 				bad = append(bad, "HMAC key is not the checked decode of the hmackey field")
 			}
 			okLen := false
@@ -425,45 +515,32 @@ func c143(c *an.Ctx, p *an.Prog) {
 					bad = append(bad, strings.ToLower(f)+" overridden without being > 0")
 				}
 			}
-			// scryptauth.New keeps the key slice itself, not a copy: nothing in the constructor may write the buffer
-			// (a private copy handed to New is a different buffer: then only writes before the copy was taken matter)
-			decoded, keyBuf := extractOf(dec, 0), nw.Args[1]
-			afterNew := false
-			rooted := func(t *an.Term) bool {
-				for t != nil {
-					if t.K == keyBuf.K || !afterNew && t.K == decoded.K {
-						return true
+			// scryptauth.New keeps the key slice itself, not a copy: nothing in the constructor may write that buffer, before
+			// or after the call. A buffer the key was copied *from* must be intact until the copy is taken; once the private
+			// copy exists it is scratch memory (clearing it is good practice, not a change of the key).
+			retained := scryptauthRetainsKey(p)
+			for li, l := range chain {
+				for j, e := range s.Events {
+					if j == l.filled || j == l.out {
+						continue // the copy that fills it / the copy or New call that reads it
 					}
-					if (t.Op == "slice" || t.Op == "indexaddr") && len(t.Args) > 0 {
-						t = t.Args[0]
+					if li == 0 && j > l.out && !retained {
+						break // this version of the dependency copies the key: later writes cannot reach it
+					}
+					if li > 0 && j > l.out {
+						break // a scratch buffer after the private copy was taken
+					}
+					w := bufWrite(p, e, l.buf)
+					if w == "" {
 						continue
 					}
-					break
-				}
-				return false
-			}
-			retained := scryptauthRetainsKey(p)
-			for _, e := range s.Events {
-				if e.Kind == "call" && e.Callee == "gopkg.in/spreadspace/scryptauth.v2.New" {
-					afterNew = true
-					continue
-				}
-				if afterNew && !retained {
-					break // this version of the dependency copies the key: later writes cannot reach it
-				}
-				switch e.Kind {
-				case "store":
-					if e.Args[0].Op == "indexaddr" && rooted(e.Args[0]) {
+					switch {
+					case li > 0:
+						bad = append(bad, "the decoded HMAC key is overwritten ("+w+") before the copy handed to scryptauth.New is taken: digests are computed with a different key than the configured one")
+					case e.Kind == "store":
 						bad = append(bad, "the decoded HMAC key buffer (kept by scryptauth.New, not copied) is overwritten in the constructor")
-					}
-				case "call": // (a deferred call appears here when it runs, at the exit)
-					for i, a := range e.Args {
-						if !rooted(a) {
-							continue
-						}
-						if w := writesArg(p, e, i); w != "" {
-							bad = append(bad, "the decoded HMAC key buffer (kept by scryptauth.New, not copied) is handed to "+shortName(e.Callee)+", which writes it ("+w+"): digests are computed with a different key than the configured one")
-						}
+					default:
+						bad = append(bad, "the decoded HMAC key buffer (kept by scryptauth.New, not copied) is handed to "+w+", which writes it: digests are computed with a different key than the configured one")
 					}
 				}
 			}
@@ -565,12 +642,19 @@ func c145(c *an.Ctx, p *an.Prog) {
 				if strings.Contains(t.K, "HmacKey") && t.Op == "load" {
 					bad = append(bad, "the returned string depends on the HMAC key")
 				}
-				u := underKDF
-				if t.Op == "call" && (kdfs[t.Aux] || strings.HasSuffix(t.Aux, "scryptauth.v2.Context).Gen")) {
-					u = true
+				// the password operand of a KDF call is the one place the password may appear: IDKey(pw, …),
+				// Context.Gen(pw) and — what Gen itself calls — Context.Hash(pw, salt)
+				pwArg := -1
+				if t.Op == "call" {
+					switch {
+					case kdfs[t.Aux]:
+						pwArg = 0
+					case strings.HasSuffix(t.Aux, "scryptauth.v2.Context).Gen"), strings.HasSuffix(t.Aux, "scryptauth.v2.Context).Hash"):
+						pwArg = 1
+					}
 				}
-				for _, a := range t.Args {
-					walk(a, u)
+				for i, a := range t.Args {
+					walk(a, underKDF || i == pwArg)
 				}
 			}
 			walk(ret.Args[0], false)
